@@ -116,6 +116,17 @@ pub fn run(opts: &Opts, rep: &Report) {
                 }
             }
         }
+        // systems with arrays: the same sessions with the solver spelling array values differently (shadowed
+        // stores, descending store order) - legal answers a witness extraction must read the same way
+        for (c, r) in chunk.iter().zip(results.iter()) {
+            if r["verdict"] == "fail" && c.spec.has_arrays() {
+                for style in ["shadowed", "descending"] {
+                    alt_jobs.push(job(&c.spec, &c.cfg, json!({"REFSMT_COUNT": "256", "REFSMT_ARRAY_STYLE": style}), false));
+                    alt_meta.push((c, format!("array-style:{style}"), 4000 + style.len()));
+                    rep.add("array_style_sessions", 1);
+                }
+            }
+        }
         let alt_results = run_jobs(&alt_jobs, threads, Duration::from_secs(30));
         for ((c, sched, a), r) in alt_meta.iter().zip(alt_results.iter()) {
             check(&c.spec, &c.cfg, r, sched, rep, (c.order << 12) + *a as u64, &mut hs);
@@ -156,7 +167,9 @@ pub fn replay(case: &Value, rep: &Report) {
     let cfg = cfg_from_json(&case["cfg"]);
     let sched = case["schedule"].as_str().unwrap_or("").to_string();
     let mut env = json!({"REFSMT_COUNT": "256"});
-    if !sched.is_empty() {
+    if let Some(style) = sched.strip_prefix("array-style:") {
+        env["REFSMT_ARRAY_STYLE"] = json!(style);
+    } else if !sched.is_empty() {
         env["REFSMT_SCHEDULE"] = json!(sched);
     }
     let j = job(&spec, &cfg, env, true);
